@@ -38,7 +38,7 @@ EXHAUSTIVE_SCOPE = "the (kind, level, channel, flavour) table c07.table()"
 
 KINDS = ["constants", "points", "runspecs", "mixed"]
 LEVELS = ["base", "scenario", "both"]
-CHANNELS = ["dict", "file", "file2", "session", "rest"]
+CHANNELS = ["dict", "file", "file2", "session", "rest", "dict+session", "dict+rest"]
 FLAVOURS = ["dsl", "xmile"]
 
 
@@ -51,7 +51,7 @@ def table():
             continue  # run specs have no manager-level form
         if channel in ("file", "file2") and flavour == "dsl":
             continue
-        if channel in ("session", "rest") and level != "scenario":
+        if channel in ("session", "rest", "dict+session", "dict+rest") and level != "scenario":
             continue  # settings are per scenario
         out.append({"kind": kind, "level": level, "channel": channel, "flavour": flavour})
     return out
@@ -60,21 +60,31 @@ def table():
 _uid = [0]
 
 
-def effective(case, sc):
+def effective(case, sc, late=None):
     consts = dict(case["base"].get("constants", {}))
     consts.update(sc.get("constants", {}))
     pts = {k: _pts(v) for k, v in case["base"].get("points", {}).items()}
     pts.update({k: _pts(v) for k, v in sc.get("points", {}).items()})
+    if late:
+        consts.update(late.get("constants", {}))
+        pts.update({k: _pts(v) for k, v in late.get("points", {}).items()})
     return consts, pts
+
+
+def merged_runspecs(sc, late=None):
+    rs = dict(sc.get("runspecs", {}))
+    if late:
+        rs.update(late.get("runspecs", {}))
+    return rs
 
 
 def _pts(v):
     return json.loads(v) if isinstance(v, str) else v
 
 
-def scenario_abstract(case, sc):
+def scenario_abstract(case, sc, late=None):
     a = c04.to_abstract(case["model"])
-    rs = sc.get("runspecs", {})
+    rs = merged_runspecs(sc, late)
     start = Decimal(str(rs["starttime"])) if "starttime" in rs else Decimal(a["start"])
     dt = Decimal(str(rs["dt"])) if "dt" in rs else Decimal(a["dt"])
     stop = Decimal(str(rs["stoptime"])) if "stoptime" in rs else Decimal(a["start"]) + a["n"] * Decimal(a["dt"])
@@ -103,11 +113,12 @@ def check_case(case):
     try:
         base_ref = SM.RefModel(abstract0, limit=1e9).run()
         for scn, sc in case["scenarios"].items():
-            a = scenario_abstract(case, sc)
+            lt = case.get("late", {}).get(scn) if channel.startswith("dict+") else None
+            a = scenario_abstract(case, sc, lt)
             if a is None:
                 info["status"] = "bad-runspec"
                 return info, vs
-            ec, ep = effective(case, sc)
+            ec, ep = effective(case, sc, lt)
             refs[scn] = (a, SM.RefModel(a, constants=ec, points=ep, limit=1e9).run())
             if SM.grid(a) != SM.grid(abstract0) or any(refs[scn][1][nm] != base_ref[nm] for nm in names):
                 info["nontrivial"] = True
@@ -121,6 +132,9 @@ def check_case(case):
     for scn, sc in case["scenarios"].items():
         if channel in ("session", "rest"):
             late[scn] = sc
+        elif channel.startswith("dict+"):
+            reg_sc[scn] = json.loads(json.dumps(sc))
+            late[scn] = json.loads(json.dumps(case.get("late", {}).get(scn, {})))
         else:
             reg_sc[scn] = json.loads(json.dumps(sc))
     base = json.loads(json.dumps(case["base"]))
@@ -187,7 +201,7 @@ def check_case(case):
                         break
                     got = {nm: res[sm][scn]["equations"][nm] for nm in names}
                     got = {nm: ([float(x) for x in s.index], [float(x) for x in s]) for nm, s in got.items()}
-                elif channel == "session":
+                elif channel in ("session", "dict+session"):
                     b.begin_session(scenarios=[scn], scenario_managers=[sm], equations=names, settings={sm: {scn: late[scn]}},
                                     starttime=grid[0], dt=float(a["dt"]))
                     for _ in range(len(grid) + 3):
@@ -259,7 +273,7 @@ def case_strategy(cfg):
 
         def cvals():
             k = draw(st.integers(1, len(consts)))
-            return {nm: draw(st.sampled_from([0.5, 1.0, 2.0, 3.0, 7.0, 0.25])) for nm in draw(st.lists(st.sampled_from(consts), min_size=k, max_size=k, unique=True))}
+            return {nm: draw(st.sampled_from([0.5, 1.0, 2.0, 3.0, 7.0, 0.25, 0.0, 0])) for nm in draw(st.lists(st.sampled_from(consts), min_size=k, max_size=k, unique=True))}
 
         def pvals():
             out = {}
@@ -313,7 +327,24 @@ def case_strategy(cfg):
             scenarios["scA"]["runspecs"] = rvals()
             if draw(st.booleans()):
                 scenarios["scB"]["runspecs"] = rvals()
-        return {"cfg": cfg, "model": model, "base": base, "scenarios": scenarios}
+        case = {"cfg": cfg, "model": model, "base": base, "scenarios": scenarios}
+        if cfg["channel"].startswith("dict+"):
+            late = {}
+            for scn in scenarios:
+                lt = {}
+                if kind in ("constants", "mixed") and draw(st.booleans()):
+                    lt["constants"] = cvals()
+                if kind in ("points", "mixed") and draw(st.booleans()):
+                    lt["points"] = {k: _pts(v) for k, v in pvals().items()}
+                if kind in ("runspecs", "mixed"):
+                    # a partial run spec block: only the stop time moves (stays on the grid of the registered run specs)
+                    a0 = scenario_abstract({"model": model, "base": base}, scenarios[scn])
+                    if a0 is not None and draw(st.booleans()):
+                        stop = Decimal(a0["start"]) + (a0["n"] + draw(st.integers(1, 3))) * Decimal(a0["dt"])
+                        lt["runspecs"] = {"stoptime": float(stop)}
+                late[scn] = lt
+            case["late"] = late
+        return case
     return build()
 
 
